@@ -178,6 +178,10 @@ def jobs(tier, seed):
     for sort in ('int', 'real') if tier != 'quick' else ('int',):
         js.append({'harness': 'cable', 'cfg': {'n': 2, 'sorts': sort}, 'weight': 30})
     js.append({'harness': 'cable', 'cfg': {'n': 1 if tier == 'quick' else 2, 'sorts': 'int', 'loss': True}, 'weight': 30})
+    if tier != 'quick':
+        js.append({'harness': 'wire', 'cfg': {'n': 5, 'sorts': 'int', 'loss': 'sym'}, 'weight': 400, 'opts': {'max_paths': 60000}})
+        js.append({'harness': 'wire', 'cfg': {'n': 6, 'sorts': 'real', 'loss': 'none'}, 'weight': 400, 'opts': {'max_paths': 60000}})
+        js.append({'harness': 'cable', 'cfg': {'n': 3, 'sorts': 'int'}, 'weight': 400, 'opts': {'max_paths': 60000}})
     return js
 
 
@@ -188,7 +192,7 @@ META = {
                         'c10.ba.delivery-time', 'c10.cable-A-to-B-only'],
     'required_covers': ['nontrivial', 'lost'],
     'bounds': {'quick': 'n=3 packets (4 without loss); cable 2+2 packets; gaps, delays >= 0 unbounded Int/Real; loss rate symbolic in [0,1]',
-               'thorough': 'n=4 (5 without loss); cable 2+2'},
+               'thorough': 'n=4-5 (5-6 without loss); cable 2+2 and 3+3, up to a path budget'},
     'assumptions': ['draws are bound to packets positionally per wire process: i-th loss draw = i-th packet entering, '
                     'j-th delay draw = j-th surviving packet; u == p left free'],
     'stubs': ['delay_dist -> fresh symbolic delay >= 0 per call', 'onl.netdev.wire.random.uniform -> symbolic draw in [0,1]'],
